@@ -66,6 +66,8 @@ def leaf_facts(tree, v):
             out.add("named_trail0")               # DER keeps the trailing zero bits (X.690 11.2.2)
         if not constrained(hi) and sn < lo:
             out.add("named_lb_unpadded")          # UPER: stripped below the lower bound, no zero bits added back
+        if constrained(hi) and sn < lo and n != lo:
+            out.add("named_padded")               # UPER adds zero bits up to lb (X.691 16.3): same abstract value, other DER (rt battery only)
     else:
         if bits.endswith("0") and (not constrained(hi) or n > lo):
             out.add("trail0")                     # UPER strips the trailing zero bits of every BIT STRING
@@ -471,7 +473,7 @@ def classify_rt(run, c, line, out):
             # the DER encoder does not remove them
             fid = None
             for fct, name in (("trail0", "uper-bitstring-trailing-zero"), ("ext_below_lb", "uper-bitstring-ext-below-lb"),
-                              ("named_trail0", "der-bitstring-named-trailing-zero")):
+                              ("named_trail0", "der-bitstring-named-trailing-zero"), ("named_padded", "der-bitstring-named-trailing-zero")):
                 if fct in c["facts"]:
                     fid = name
                     break
